@@ -279,7 +279,10 @@ def run(M, rec, tier, seed, k, n):
         one_network(M, rec, rng, g, desc, built, tier)
     rec.extra["exhaustive_small_nmax"] = nmax
     sh = W.shapes_cycle()
-    for it in range(70 if tier == "quick" else 500):
+    import os
+
+    child = os.environ.get("VF_OPTIMISED_CHILD") == "1"
+    for it in range((70 if tier == "quick" else 500) if not child else 16):
         shp, desc, built = W.make_net(M, g, next(sh), rng)
         rec.seen("shapes", shp)
         if shp == "allkinds":
@@ -305,6 +308,49 @@ def run(M, rec, tier, seed, k, n):
     if rec.counters.get("valid_networks", 0) <= 3:
         pass
     rec.sample({"example_network": desc})
+
+
+    if k == 0 and not child:
+        optimised_interpreter(rec, seed)
+
+
+def optimised_interpreter(rec, seed):
+    """The same kind of workload in an interpreter started with -O (assert statements are not compiled):
+    a configuration of the caller, like the floating-point error mode."""
+    import json
+    import os
+    import subprocess
+    import sys
+    import tempfile
+
+    from vf.env import VERIF_DIR
+
+    fd, out = tempfile.mkstemp(prefix="vf_c07_O_", suffix=".json")
+    os.close(fd)
+    env = dict(os.environ, VF_OPTIMISED_CHILD="1", PYTHONHASHSEED="0")
+    try:
+        p = subprocess.run([sys.executable, "-O", os.path.join(VERIF_DIR, "check"), PROP, "--tier", "quick", "--seed", str(seed),
+                            "--shard", "0/12", "--state-out", out], cwd=VERIF_DIR, env=env, stdout=subprocess.DEVNULL,
+                           stderr=subprocess.DEVNULL, timeout=900)
+        with open(out) as f:
+            st = json.load(f)
+    except Exception as e:
+        rec.count("optimised_interpreter_run_failed")
+        rec.seen("optimised_interpreter_run_failed", repr(e)[:150])
+        return
+    finally:
+        try:
+            os.unlink(out)
+        except OSError:
+            pass
+    st["counters"] = {"python_O_" + k_: v_ for k_, v_ in st["counters"].items()}
+    st["cover"] = {"python_O_" + k_: v_ for k_, v_ in st["cover"].items()}
+    st["samples"] = []
+    st["violations"] = {m_ + " [interpreter started with -O]": v_ for m_, v_ in st["violations"].items()}
+    st["inconclusive"] = []
+    st["extra"] = {}
+    rec.merge_state(st)
+    rec.count("optimised_interpreter_runs")
 
 
 def finish(M, rec, write=True):
